@@ -35,13 +35,16 @@ FlatBlocks ==
       Blk(4, 1, 1, {FALSE}, {TRUE}, PairHeads4, FALSE) }
   ELSE
     { Blk(2, 1, 2, BOOLEAN, BOOLEAN, AllHeads(2, 2), FALSE),
-      Blk(2, 2, 2, BOOLEAN, BOOLEAN, AllHeads(2, 2), FALSE),
-      Blk(2, 3, 1, BOOLEAN, {TRUE}, AllHeads(2, 1), FALSE),
-      Blk(3, 1, 2, {FALSE}, BOOLEAN, AllHeads(3, 2), FALSE),
+      Blk(2, 2, 2, {FALSE}, BOOLEAN, AllHeads(2, 2), FALSE),
+      Blk(2, 2, 1, BOOLEAN, BOOLEAN, AllHeads(2, 1), FALSE),
+      Blk(2, 3, 1, {FALSE}, {TRUE}, AllHeads(2, 1), FALSE),
+      Blk(3, 1, 2, {FALSE}, {TRUE}, AllHeads(3, 2), FALSE),
+      Blk(3, 1, 2, {FALSE}, {FALSE}, SortedHeads(3, 2), FALSE),
       Blk(3, 1, 1, {TRUE}, BOOLEAN, AllHeads(3, 1), FALSE),
       Blk(3, 2, 1, {FALSE}, {TRUE}, PairHeads3, TRUE),
       Blk(4, 1, 1, {FALSE}, {TRUE}, AllHeads(4, 1), TRUE),
-      Blk(4, 1, 1, {FALSE}, {FALSE}, SortedHeads(4, 1), FALSE),
+      Blk(4, 1, 1, {FALSE}, {TRUE}, PairHeads4, FALSE),
+      Blk(4, 1, 1, {FALSE}, {FALSE}, SortedHeads(4, 1), TRUE),
       Blk(4, 1, 1, {TRUE}, {FALSE}, SortedHeads(4, 1), TRUE) }
 FlatSeeds == UNION {[kind : {"seed"}, n : {b.n}, A : {b.A}, den : {b.den}, ordered : b.ords, pc : b.pcs, head : b.heads, lite : {b.lite}] : b \in FlatBlocks}
 FlatCases(s) == [kind : {"flat"}, n : {s.n}, A : {s.A}, den : {s.den}, ordered : {s.ordered}, pc : {s.pc}, head : {s.head}, lite : {s.lite},
@@ -74,7 +77,6 @@ CompactTree(S, gm, den) == {[p \in 1..Len(r) |-> <<LeafIndex(gm, r[p].path), ToU
 UnorderedEligible(g) == LET gm == GroupMap(g) IN EqualSizes(gm) /\ Len(gm[1]) >= 2
 
 \* fixed credit patterns (units of 1/2).  Rank(p) = the leaf answer "meant" for input p.
-GroupOfPos(g, p) == g[p]
 IndexInGroup(g, p) == Cardinality({x \in 1..p : g[x] = g[p]})
 RankOf(g, p) == Offset(GroupMap(g), g[p]) + IndexInGroup(g, p)
 \* pattern 2: full credit for the next answer of the same slot (cyclically), half credit for the meant one
@@ -88,7 +90,7 @@ Pattern(g, pat) ==
   IN [p \in 1..Len(g) |-> [q \in 1..Len(g) |-> IF q = Full(p) THEN 2 ELSE IF q = RankOf(g, p) THEN 1 ELSE 0]]
 
 MaxN == IF Tier = "quick" THEN 6 ELSE 8
-MaxG(N) == IF Tier = "quick" THEN (IF N <= 5 THEN N ELSE 3) ELSE (IF N <= 6 THEN N ELSE IF N = 7 THEN 5 ELSE 3)
+MaxG(N) == IF Tier = "quick" THEN (IF N <= 5 THEN N ELSE 3) ELSE (IF N <= 6 THEN N ELSE IF N = 7 THEN 3 ELSE 2)
 GroupSeeds == {s \in [kind : {"seed"}, N : 2..MaxN, G : 2..MaxN, p1 : 1..MaxN, p2 : 1..MaxN] :
                  s.G <= MaxG(s.N) /\ s.G <= s.N /\ s.p1 <= s.G /\ s.p2 <= s.G}
 GroupingOf(x) == <<x.p1, x.p2>> \o x.rest
@@ -106,8 +108,8 @@ NestFlags == IF Tier = "quick"
              THEN {<<FALSE, FALSE, TRUE, TRUE>>, <<FALSE, TRUE, TRUE, FALSE>>, <<FALSE, FALSE, FALSE, FALSE>>, <<TRUE, FALSE, FALSE, TRUE>>}
              ELSE {f \in [1..4 -> BOOLEAN] : ~f[1]} \cup {<<TRUE, FALSE, FALSE, TRUE>>, <<TRUE, TRUE, TRUE, FALSE>>}   \* <<outOrd, inOrd, pcOut, pcIn>>
 NestFirsts == IF Tier = "quick" THEN {<<<<1, 0, 0, 1>>, <<0, 1, 1, 0>>>>, <<<<1, 1, 0, 0>>, <<0, 1, 0, 1>>>>, <<<<0, 0, 1, 0>>, <<1, 0, 1, 1>>>>}
-              ELSE {<<r1, r2>> : r1 \in {<<1, 0, 0, 1>>, <<1, 1, 0, 0>>, <<0, 0, 1, 0>>, <<1, 1, 1, 1>>},
-                                 r2 \in {<<0, 1, 1, 0>>, <<0, 1, 0, 1>>, <<1, 0, 1, 1>>}}
+              ELSE {<<r1, r2>> : r1 \in {<<1, 0, 0, 1>>, <<1, 1, 0, 0>>, <<0, 0, 1, 0>>},
+                                 r2 \in {<<0, 1, 1, 0>>, <<1, 0, 1, 1>>}}
 NestSeeds == [kind : {"seed"}, g : (IF Tier = "quick" THEN {<<1, 2, 1, 2>>} ELSE NestLayouts), flags : NestFlags, first : NestFirsts]
 NestCases(s) == [kind : {"nested"}, g : {s.g}, outOrd : {s.flags[1]}, inOrd : {s.flags[2]}, pcOut : {s.flags[3]}, pcIn : {s.flags[4]},
                  first : {s.first}, rest : [1..2 -> Rows(4, 1)]]
